@@ -398,6 +398,77 @@ fn main() {
                     let lens: Vec<usize> = kv["lens"].split(',').filter(|s| !s.is_empty()).map(|s| s.parse().unwrap()).collect();
                     let seq0: u64 = kv.get("seq0").map(|s| s.parse().unwrap()).unwrap_or(1);
                     let (_b, _i, c) = ctx.as_mut().expect("splitnew first");
+                    // viabuf=1: the batch buffer is filled by the real `Buffer::push` (u64 key, Vec<u8> value whose
+                    // size makes the serialized entry exactly `len` bytes), so that the buffer's layout and the
+                    // splitter's index are checked against each other: every indexed entry must deserialize, from the
+                    // part's data at its indexed offset, to the key and value pushed
+                    let viabuf = kv.get("viabuf").map(|s| s == "1").unwrap_or(false) && lens.iter().all(|l| *l >= 52);
+                    if viabuf {
+                        let total: usize = lens.iter().map(|l| l.div_ceil(PAGE) * PAGE).sum::<usize>() + 64 * PAGE;
+                        let mut buffer = Buffer::new(IoSliceMut::new(total), usize::MAX / 2, Arc::new(Metrics::noop()));
+                        let mut lenbad = 0;
+                        for (n, l) in lens.iter().enumerate() {
+                            let key: u64 = 1000 + seq0 + n as u64;
+                            let value = vec![(n as u8).wrapping_add(1); l - 52];
+                            if !buffer.push(&key, &value, key, Compression::None, seq0 + n as u64) {
+                                lenbad += 1;
+                            }
+                        }
+                        let (bytes, infos) = buffer.finish();
+                        if infos.len() != lens.len() || infos.iter().zip(lens.iter()).any(|(i, l)| i.len != *l) {
+                            lenbad += 1;
+                        }
+                        let batch = Splitter::split(c, bytes.into_io_slice(), infos);
+                        let mut parts = vec![];
+                        let mut databad = 0;
+                        for (bi, block) in batch.blocks.iter().enumerate() {
+                            for p in block.blob_parts.iter() {
+                                let idx = BlobIndexReader::read(&p.index).expect("sealed index must parse");
+                                assert!(idx.len() >= p.indices.len());
+                                assert_eq!(idx[idx.len() - p.indices.len()..], p.indices[..]);
+                                for i in p.indices.iter() {
+                                    let rel = i.offset as usize - p.part_blob_offset;
+                                    let good = (|| {
+                                        let raw = p.data.get(rel..rel + i.len as usize)?;
+                                        let header = EntryHeader::read(&raw[..EntryHeader::serialized_len()]).ok()?;
+                                        let (k2, v2) = EntryDeserializer::deserialize::<u64, Vec<u8>>(
+                                            &raw[EntryHeader::serialized_len()..],
+                                            header.key_len as usize,
+                                            header.value_len as usize,
+                                            header.compression,
+                                            Some(header.checksum),
+                                        )
+                                        .ok()?;
+                                        let n = (i.sequence - seq0) as usize;
+                                        (k2 == i.hash && v2.len() == i.len as usize - 52 && v2.iter().all(|b| *b == (n as u8).wrapping_add(1)))
+                                            .then_some(())
+                                    })()
+                                    .is_some();
+                                    if !good {
+                                        databad += 1;
+                                    }
+                                }
+                                parts.push(format!(
+                                    "{}:{}:{}:{}:{}:[{}]",
+                                    bi,
+                                    p.blob_block_offset,
+                                    p.part_blob_offset,
+                                    p.data.len(),
+                                    idx.len(),
+                                    p.indices
+                                        .iter()
+                                        .map(|i| format!("{}.{}.{}.{}", i.hash, i.sequence, i.offset, i.len))
+                                        .collect::<Vec<_>>()
+                                        .join("/")
+                                ));
+                            }
+                        }
+                        let mut o = format!("blocks={} parts={}", batch.blocks.len(), parts.join(";"));
+                        if databad > 0 || lenbad > 0 {
+                            o += &format!(" databad={databad} lenbad={lenbad}");
+                        }
+                        return o;
+                    }
                     // build the batch buffer exactly as the flusher does: entries page-aligned, back to back
                     let total: usize = lens.iter().map(|l| l.div_ceil(PAGE) * PAGE).sum();
                     let mut bytes = IoSliceMut::new(total.max(PAGE));
